@@ -38,6 +38,7 @@ type cbCase struct {
 	Sig    cbSig    `json:"sig"`
 	Args   []string `json:"args"`
 	Blk    bool     `json:"blk"`
+	Bind   string   `json:"bind"`
 	Expect struct {
 		K         string   `json:"k"`
 		Recv      []cbRecv `json:"recv"`
@@ -253,6 +254,12 @@ func c12Run(c *Ctx, raw json.RawMessage) {
 		return
 	}
 	if cc.Expect.K == "unspec" {
+		// not decided by the statement; still compared with the transcription of the code (drift only)
+		if (cc.Bind == "call") == (invoked == 1) {
+			c.Drift("undetermined-cell:as-transcribed")
+		} else {
+			c.Drift("undetermined-cell:differs-from-transcription")
+		}
 		return
 	}
 	// probes: each supplied argument evaluated once, left to right (as far as the binding got)
